@@ -45,6 +45,9 @@ enum Op {
     DropList,
     DropP(usize),
     DropRt,
+    /// register one more constant (`LATER`, a tracked value) on the live runtime — possibly
+    /// AFTER packages were compiled on it; packages compiled afterwards read it
+    AddLater,
 }
 
 // ------------------------------------------------------------ model
@@ -52,6 +55,8 @@ enum Op {
 #[derive(Clone, Debug, PartialEq, Eq, Hash, PartialOrd, Ord)]
 struct MModule {
     version: u8,
+    /// compiled after `LATER` was registered: reads it, and must keep it alive
+    has_later: bool,
     rt_gen: u32,
     pkg_alive: bool,
     handles: u32,
@@ -59,6 +64,8 @@ struct MModule {
 
 #[derive(Clone, Debug, Default)]
 struct Model {
+    /// `LATER` has been registered on the live runtime
+    later: bool,
     rt: Option<u32>, // generation of the live runtime
     next_gen: u32,
     modules: Vec<MModule>,          // all modules ever, dead ones stay (index = module id)
@@ -84,6 +91,9 @@ impl Model {
             v.push(Op::NewRt);
         } else {
             v.push(Op::DropRt);
+            if !self.later {
+                v.push(Op::AddLater);
+            }
             if self.pkgs.iter().any(|p| p.is_none()) {
                 v.push(Op::Compile(1));
                 v.push(Op::Compile(2));
@@ -138,11 +148,16 @@ impl Model {
             Op::NewRt => {
                 self.rt = Some(self.next_gen);
                 self.next_gen += 1;
+                self.later = false;
             }
-            Op::DropRt => self.rt = None,
+            Op::DropRt => {
+                self.rt = None;
+                self.later = false;
+            }
+            Op::AddLater => self.later = true,
             Op::Compile(v) => {
                 let slot = self.pkgs.iter().position(|p| p.is_none()).unwrap();
-                self.modules.push(MModule { version: v, rt_gen: self.rt.unwrap(), pkg_alive: true, handles: 0 });
+                self.modules.push(MModule { version: v, has_later: self.later, rt_gen: self.rt.unwrap(), pkg_alive: true, handles: 0 });
                 self.pkgs[slot] = Some(self.modules.len() - 1);
             }
             Op::Get(p) => {
@@ -207,6 +222,19 @@ impl Model {
                 }
             }
         }
+        // `LATER` (710): held by the runtime it was registered on and by every module compiled after that
+        let mut later_gens: Vec<u32> = vec![];
+        if self.later {
+            later_gens.extend(self.rt);
+        }
+        for (i, m) in self.modules.iter().enumerate() {
+            if self.module_alive(i) && m.has_later && !later_gens.contains(&m.rt_gen) {
+                later_gens.push(m.rt_gen);
+            }
+        }
+        for _ in later_gens {
+            v.push(710);
+        }
         for _ in gens {
             v.push(700); // registered constant
             v.push(800); // captured by the first registered closure
@@ -216,10 +244,13 @@ impl Model {
         v
     }
     fn expected_call(&self, h: usize, x: u64) -> u64 {
-        match self.modules[self.handles[h].unwrap()].version {
-            1 => x + 11 + 800 + 700 + 901,
-            _ => x * 2 + 22 + 800 + 700 + 902,
-        }
+        let m = &self.modules[self.handles[h].unwrap()];
+        let later = if m.has_later { 710 } else { 0 };
+        later
+            + match m.version {
+                1 => x + 11 + 800 + 700 + 901,
+                _ => x * 2 + 22 + 800 + 700 + 902,
+            }
     }
     /// canonical key: property-relevant state only. Two histories with equal
     /// keys have the same future observations: those depend only on which
@@ -235,7 +266,7 @@ impl Model {
             *names.entry(g).or_insert(n)
         };
         if let Some(g) = self.rt {
-            s += &format!("rt{};", gname(g, &mut gen_names));
+            s += &format!("rt{}{};", gname(g, &mut gen_names), if self.later { "L" } else { "" });
         } else {
             s += "rt-;";
         }
@@ -247,7 +278,7 @@ impl Model {
                 let mm = &self.modules[m];
                 let g = gname(mm.rt_gen, gen_names);
                 let rt_of_gen_alive = self.rt == Some(mm.rt_gen);
-                *s += &format!("m{name}(v{},g{g}{},p{},h{})", mm.version, if rt_of_gen_alive { "+" } else { "-" }, mm.pkg_alive as u8, mm.handles);
+                *s += &format!("m{name}(v{}{},g{g}{},p{},h{})", mm.version, if mm.has_later { "L" } else { "" }, if rt_of_gen_alive { "+" } else { "-" }, mm.pkg_alive as u8, mm.handles);
             } else {
                 *s += &format!("m{name}");
             }
@@ -467,9 +498,19 @@ fn replay(hist: &[Op], last: Op) -> Result<String, (String, Value)> {
             Op::Compile(v) => {
                 let slot = real.pkgs.iter().position(|p| p.is_none()).unwrap();
                 let src = if v == 1 { V1 } else { V2 };
-                match host::compile(real.rt.as_ref().unwrap(), src) {
+                // a package compiled after LATER was registered reads it
+                let src = if model.later { src.replace("+ RC.payload()", "+ RC.payload() + LATER.payload()") } else { src.to_string() };
+                match host::compile(real.rt.as_ref().unwrap(), &src) {
                     Ok(p) => real.pkgs[slot] = Some(p),
                     Err(e) => return Err(("compile".into(), json!(format!("{e:?}")))),
+                }
+            }
+            Op::AddLater => {
+                let lib = library! {
+                    const LATER: Val<host::Tr> = Val(host::Tr::new(710));
+                };
+                if let Err(e) = real.rt.as_mut().unwrap().add(lib) {
+                    return Err(("add".into(), json!(e.to_string())));
                 }
             }
             Op::Get(p) => {
